@@ -10,6 +10,10 @@
    both sides, ends one byte before the attribute's end, equals a borrowed value's slice, and only whitespace and
    one '=' separate it from the qname.  Shift: prepending whitespace to an input that starts with neither a BOM nor
    an XML declaration yields the same document with every non-root range moved by exactly that length.
+   Whole documents on the fragment of Spec/Cst.v: the range of every node is exactly the span of its construct in
+   the rendering (spans c, CstRangeDefs.v: an element from its '<' to the '>' of its end or empty-element tag), the
+   root range is the whole input, attribute range / qname / value sub-ranges are exactly the written name-to-quote,
+   name and between-the-quotes spans (attr_spans c); hence the slice shapes C13 names (EXTRA below).
    Statements are pinned here (copied verbatim from the proof files by tools/pin_props.py);
    each is re-proved by `exact` and followed by Print Assumptions. *)
 From Coq Require Import Ascii String.
@@ -17,7 +21,8 @@ From Coq Require Import List NArith Bool PeanoNat Sorted.
 Import ListNotations.
 From RX Require Import Generated.
 From RX.Model Require Import Base CharClass Stream Tokenizer Doc Builder Parse Api.
-From RX.Proofs Require Import LexerProofs NoPanicTokenizer RangeTokenizer RangeArena RangeInv RangeBuilder RangeParse RangeAttrLocal RangeAttrTok RangeAttrParse RangeShiftBase RangeShiftStream RangeShiftTokenizer RangeShiftBuilder RangeShiftParse RangeShiftFinal.
+From RX.Proofs Require Import LexerProofs NoPanicTokenizer RangeTokenizer RangeArena RangeInv RangeBuilder RangeParse RangeAttrLocal RangeAttrTok RangeAttrParse RangeShiftBase RangeShiftStream RangeShiftTokenizer RangeShiftBuilder RangeShiftParse RangeShiftFinal CstRangeDefs CstRangeMain.
+From RX.Spec Require Cst.
 Open Scope N_scope.
 
 (* ---- Proofs/RangeParse.v ---- *)
@@ -81,8 +86,32 @@ Theorem C13_parse_shift_whitespace_partial :
 Proof. exact parse_shift_whitespace_partial. Qed.
 Print Assumptions C13_parse_shift_whitespace_partial.
 
+(* ---- Proofs/CstRangeMain.v ---- *)
+Theorem C13_parse_render_ranges :
+  forall (c : Cst.doc) (opt : options) d,
+  Cst.wf_doc c = true ->
+  N.of_nat (length (Cst.sem c)) < nodes_limit opt ->          (* room for all nodes + the Root *)
+  N.of_nat (length (Cst.render c)) <= u32_max ->               (* the input is at most u32::MAX bytes long *)
+  parse (Cst.render c) opt = Ok d ->
+  map nd_range (tl (d_nodes d)) = spans c /\
+  (exists root, nth_N (d_nodes d) 0 = Some root /\ nd_range root = (0, N.of_nat (length (Cst.render c)))).
+Proof. exact parse_render_ranges. Qed.
+Print Assumptions C13_parse_render_ranges.
+
+Theorem C13_parse_render_attr_ranges :
+  forall (c : Cst.doc) (opt : options) d,
+  Cst.wf_doc c = true ->
+  N.of_nat (length (Cst.sem c)) < nodes_limit opt ->
+  N.of_nat (length (Cst.render c)) <= u32_max ->
+  attrs_small c ->                                             (* below the saturation limits *)
+  parse (Cst.render c) opt = Ok d ->
+  map (fun a => (ad_range a, attr_range_qname a, attr_range_value a)) (d_attrs d) =
+  map (fun s => (as_range s, as_qname s, Ok (as_value s))) (attr_spans c).
+Proof. exact parse_render_attr_ranges. Qed.
+Print Assumptions C13_parse_render_attr_ranges.
+
 (* ---- Proofs/RangeTokenizer.v ---- *)
-Module G3.
+Module G4.
 Local Notation token := Tokenizer.token.
 Theorem C13_tokenizer_token_ranges :
   forall text (C : Type) (ev : token -> C -> res C)
@@ -94,10 +123,10 @@ Theorem C13_tokenizer_token_ranges :
 Proof. exact tokenizer_token_ranges. Qed.
 Print Assumptions C13_tokenizer_token_ranges.
 
-End G3.
+End G4.
 
 (* ---- Proofs/LexerProofs.v ---- *)
-Module G4.
+Module G5.
 Local Notation token := Tokenizer.token.
 Theorem C13_parse_comment_post :
   forall (text : bytes), forall s acc s' acc', SInv text s ->
@@ -118,7 +147,7 @@ Theorem C13_parse_pi_post :
     prefix_b (b "<?") (sub text (s_pos s) (s_pos s')) = true /\
     sub text (s_pos s' - 2) (s_pos s') = b "?>" /\
     match value with
-    | Some v => slice_len v <> 0 /\ sl_end v + 2 = s_pos s' /\ sl_end target <= sl_start v /\
+    | Some v => slice_len v <> 0 /\ sl_end v + 2 = s_pos s' /\ sl_end target < sl_start v /\
                 forallb byte_is_space (sub text (sl_end target) (sl_start v)) = true /\
                 (exists x, hd_error (slice_bytes text v) = Some x /\ byte_is_space x = false)
     | None => forallb byte_is_space (sub text (sl_end target) (s_pos s' - 2)) = true
@@ -168,4 +197,51 @@ Theorem C13_parse_close_element_post :
 Proof. exact parse_close_element_post. Qed.
 Print Assumptions C13_parse_close_element_post.
 
-End G4.
+End G5.
+
+
+(* the slice shapes of C13, for every node of every parsed rendering of the Cst fragment *)
+Theorem C13_element_slice_shape :
+  forall (c : Cst.doc) (opt : options) (d : document),
+  Cst.wf_doc c = true -> N.of_nat (length (Cst.sem c)) < nodes_limit opt ->
+  N.of_nat (length (Cst.render c)) <= u32_max -> parse (Cst.render c) opt = Ok d ->
+  forall (id : N) (nd : node_data) (ns : option N) (local : slice) (ar nss : range),
+  nth_N (d_nodes d) id = Some nd -> nd_kind nd = KElement ns local ar nss ->
+  exists mid : list N,
+    sub (Cst.render c) (fst (nd_range nd)) (snd (nd_range nd)) =
+    [60] ++ slice_bytes (Cst.render c) local ++ mid ++ [62].
+Proof. exact element_slice_shape. Qed.
+Print Assumptions C13_element_slice_shape.
+
+Theorem C13_comment_slice_shape :
+  forall (c : Cst.doc) (opt : options) (d : document),
+  Cst.wf_doc c = true -> N.of_nat (length (Cst.sem c)) < nodes_limit opt ->
+  N.of_nat (length (Cst.render c)) <= u32_max -> parse (Cst.render c) opt = Ok d ->
+  forall (id : N) (nd : node_data) (s : slice),
+  nth_N (d_nodes d) id = Some nd -> nd_kind nd = KComment s ->
+  sub (Cst.render c) (fst (nd_range nd)) (snd (nd_range nd)) =
+  [60; 33; 45; 45] ++ slice_bytes (Cst.render c) s ++ [45; 45; 62].
+Proof. exact comment_slice_shape. Qed.
+Print Assumptions C13_comment_slice_shape.
+
+Theorem C13_pi_slice_shape :
+  forall (c : Cst.doc) (opt : options) (d : document),
+  Cst.wf_doc c = true -> N.of_nat (length (Cst.sem c)) < nodes_limit opt ->
+  N.of_nat (length (Cst.render c)) <= u32_max -> parse (Cst.render c) opt = Ok d ->
+  forall (id : N) (nd : node_data) (target : slice) (value : option slice),
+  nth_N (d_nodes d) id = Some nd -> nd_kind nd = KPI target value ->
+  exists mid : list N,
+    sub (Cst.render c) (fst (nd_range nd)) (snd (nd_range nd)) =
+    [60; 63] ++ slice_bytes (Cst.render c) target ++ mid ++ [63; 62].
+Proof. exact pi_slice_shape. Qed.
+Print Assumptions C13_pi_slice_shape.
+
+Theorem C13_text_slice_shape :
+  forall (c : Cst.doc) (opt : options) (d : document),
+  Cst.wf_doc c = true -> N.of_nat (length (Cst.sem c)) < nodes_limit opt ->
+  N.of_nat (length (Cst.render c)) <= u32_max -> parse (Cst.render c) opt = Ok d ->
+  forall (id : N) (nd : node_data) (st : storage),
+  nth_N (d_nodes d) id = Some nd -> nd_kind nd = KText st ->
+  exists s : slice, st = Borrowed (SIn s) /\ (sl_start s, sl_end s) = nd_range nd.
+Proof. exact text_slice_shape. Qed.
+Print Assumptions C13_text_slice_shape.
